@@ -237,7 +237,7 @@ impl Check for C10Wide {
             let rows = rows.iter().map(|r| r.iter().take(width).map(|(a, f, m, sp)| if cols > 0 && *a < 2 { None } else { Some((fams[*f as usize % fams.len()], *m, *sp)) }).collect()).collect();
             Case10W { cols, titles, csv: csv && cols > 0, rows, many: None, sort: 0 }
         });
-        let many = (0usize..=2, 0u8..3, prop::bool::weighted(0.2), 1_000u32..max_many, any::<u64>()).prop_map(|(cols, titles, csv, n, seed)| Case10W { cols, titles, csv: csv && cols > 0, rows: vec![], many: Some((n, seed)), sort: 0 });
+        let many = (0usize..=2, 0u8..3, prop::bool::weighted(0.2), prop_oneof![40 => 1_000u32..max_many, 1 => 65_530u32..70_000], any::<u64>()).prop_map(|(cols, titles, csv, n, seed)| Case10W { cols, titles, csv: csv && cols > 0, rows: vec![], many: Some((n, seed)), sort: 0 });
         (prop_oneof![60 => explicit, 1 => many], 0u8..6).prop_map(|(mut c, s)| {
             if c.cols > 0 && s < 3 {
                 c.sort = s;
